@@ -42,7 +42,7 @@ THEOREMS = (["Gozod.C20.bisim_sound", "Gozod.C20.bisim_sound_full"]
     + ["Gozod.C20.ipv4Fields_run", "Gozod.C20.addrKind_of_run", "Gozod.C20.parseAddrIs4_run", "Gozod.C20.prefixBits_run", "Gozod.C20.cidr_split",
        "Gozod.C20.c20_cidrv4_netip"]
     # the default IsoTime(): exported pattern = definition; validator's own pattern = definition outside hh:mm:ss ',' digit+ (witness)
-    + ["Gozod.C20.extend_run", "Gozod.C20.isoTimeC_run", "Gozod.C20.c20_isotime_pattern", "Gozod.C20.c20_isotime_partial", "Gozod.C20.c20_isotime_witness",
+    + ["Gozod.C20.extend_run", "Gozod.C20.isoTimeC_run", "Gozod.C20.c20_isotime_pattern", "Gozod.C20.c20_isotime_partial", "Gozod.C20.c20_isotime",
        "Gozod.C20.c20_isotime_validator_vs_pattern"]
     # validator side of IPv6 / CIDRv6: netip.parseIPv6 transcribed from the Go source = the RFC 4291 automaton, all strings
     + ["Gozod.C20.sim5", "Gozod.C20.oct_step", "Gozod.C20.doomed14", "Gozod.C20.dispatch", "Gozod.C20.in_group", "Gozod.C20.head_sim",
@@ -55,7 +55,7 @@ JOB_FORMAT = {"isodatetime_optsec": "isodatetime", "isodatetime_partial": "isoda
               "ipv6_nopct": "ipv6", "ipv6_partial": "ipv6", "cidrv6_nopct": "cidrv6", "cidrv6_partial": "cidrv6",
               "ipv6_dot": "ipv6", "cidrv6_dot": "cidrv6", "isotime_pat": "isotime", "isotime_partial": "isotime"}
 # jobs whose certificate the proof module imports (a `differ` there breaks a theorem)
-REQUIRED_JOBS = set(REGEX_FORMATS) | {"cidrv4", "isodate", "isodatetime_optsec", "isodatetime_partial", "base64url_partial"} | set(OPTION_JOBS) | {"ipv6_partial", "cidrv6_partial", "ipv6_dot", "cidrv6_dot", "isotime_pat", "isotime_partial"} | set(TAIL_JOBS)
+REQUIRED_JOBS = set(REGEX_FORMATS) | {"cidrv4", "isodate", "isodatetime_optsec", "isodatetime_partial", "base64url_partial"} | set(OPTION_JOBS) | {"ipv6_partial", "cidrv6_partial", "ipv6_dot", "cidrv6_dot", "isotime_pat", "isotime_partial", "isotime"} | set(TAIL_JOBS)
 
 GEN = os.path.join(C.LEAN, "Gozod", "Gen")
 
